@@ -117,6 +117,15 @@ def reaching_def(name: str, at: ast.AST) -> ast.AST | None:
                 return prev.value
             if isinstance(prev, ast.AnnAssign) and isinstance(prev.target, ast.Name) and prev.target.id == name and prev.value is not None:
                 return prev.value
+            # `a, b, c = X`  binds  b  to  X[1]  (no starred targets)
+            if isinstance(prev, ast.Assign) and len(prev.targets) == 1 and isinstance(prev.targets[0], (ast.Tuple, ast.List)) \
+                    and not any(isinstance(t, ast.Starred) for t in prev.targets[0].elts):
+                for i_, t in enumerate(prev.targets[0].elts):
+                    if isinstance(t, ast.Name) and t.id == name:
+                        if isinstance(prev.value, (ast.Tuple, ast.List)) and len(prev.value.elts) == len(prev.targets[0].elts):
+                            return prev.value.elts[i_]
+                        if isinstance(prev.value, (ast.Name, ast.Attribute, ast.Subscript)):
+                            return ast.copy_location(ast.Subscript(value=prev.value, slice=ast.Constant(value=i_), ctx=ast.Load()), prev.value)
             if name in assigned_names(prev):
                 return None
         p = parent(stmt)
@@ -604,3 +613,112 @@ def _parses(txt: str) -> bool:
         return True
     except SyntaxError:
         return False
+
+
+# ---------------------------------------------------------------------------- reachability under assumed boolean facts
+
+
+def _tv(e: ast.AST, state: dict[str, bool]) -> bool | None:
+    """Three-valued value of a condition given known truth values of expressions (by normalised source text)."""
+    t = " ".join(ast.unparse(e).split())
+    if t in state:
+        return state[t]
+    if isinstance(e, ast.Constant) and isinstance(e.value, bool):
+        return e.value
+    if isinstance(e, ast.UnaryOp) and isinstance(e.op, ast.Not):
+        v = _tv(e.operand, state)
+        return None if v is None else (not v)
+    if isinstance(e, ast.BoolOp):
+        vals = [_tv(v, state) for v in e.values]
+        if isinstance(e.op, ast.And):
+            if any(v is False for v in vals):
+                return False
+            return True if all(v is True for v in vals) else None
+        if any(v is True for v in vals):
+            return True
+        return False if all(v is False for v in vals) else None
+    if isinstance(e, ast.Call) and call_name(e) == "bool" and len(e.args) == 1:
+        return _tv(e.args[0], state)
+    return None
+
+
+def reach_assuming(cfg: CFG, start: Node, assume: dict[str, bool], labels_excluded: Iterable[str] = ("exc", "cancel")) -> set[Node]:
+    """Nodes reachable from ``start`` (exclusive, unless re-entered) when the expressions in ``assume`` have the given truth
+    values at ``start``.  Knowledge is propagated forward: `flag = <expr>` records the three-valued value of <expr>, a test
+    whose value is known takes only that edge, re-binding a name forgets every fact that mentions it, joins keep what agrees."""
+    import re as _re
+    lx = set(labels_excluded)
+    states: dict[Node, dict[str, bool]] = {}
+    work: list[tuple[Node, dict[str, bool]]] = []
+
+    def forget(state: dict[str, bool], name: str) -> dict[str, bool]:
+        pat = _re.compile(rf"(?<![A-Za-z0-9_.]){_re.escape(name)}(?![A-Za-z0-9_])")
+        return {k: v for k, v in state.items() if not pat.search(k)}
+
+    def transfer(n: Node, state: dict[str, bool]) -> dict[str, bool]:
+        a = n.ast
+        if n.kind in ("test", "iter") or a is None:
+            if n.kind == "iter" and a is not None and hasattr(a, "target"):
+                for x in ast.walk(a.target):
+                    if isinstance(x, ast.Name):
+                        state = forget(state, x.id)
+            return state
+        bound: list[tuple[str, ast.AST | None]] = []
+        if isinstance(a, ast.Assign):
+            for t in a.targets:
+                if isinstance(t, ast.Name):
+                    bound.append((t.id, a.value))
+                else:
+                    bound += [(x.id, None) for x in ast.walk(t) if isinstance(x, ast.Name) and isinstance(x.ctx, ast.Store)]
+        elif isinstance(a, ast.AnnAssign) and isinstance(a.target, ast.Name) and a.value is not None:
+            bound.append((a.target.id, a.value))
+        elif isinstance(a, ast.AugAssign) and isinstance(a.target, ast.Name):
+            bound.append((a.target.id, None))
+        elif isinstance(a, (ast.With, ast.AsyncWith)):
+            for it in a.items:
+                if it.optional_vars is not None:
+                    bound += [(x.id, None) for x in ast.walk(it.optional_vars) if isinstance(x, ast.Name)]
+        for x in ast.walk(a) if not isinstance(a, (ast.If, ast.While, ast.For, ast.AsyncFor, ast.Try, ast.With, ast.AsyncWith)) else ():
+            if isinstance(x, ast.NamedExpr) and isinstance(x.target, ast.Name):
+                bound.append((x.target.id, None))
+        for name, val in bound:
+            v = _tv(val, state) if val is not None else None
+            state = forget(state, name)
+            if v is not None:
+                state[name] = v
+        return state
+
+    def push(n: Node, state: dict[str, bool]) -> None:
+        old = states.get(n)
+        if old is None:
+            states[n] = dict(state)
+            work.append((n, dict(state)))
+            return
+        merged = {k: v for k, v in old.items() if state.get(k) == v}
+        if merged != old:
+            states[n] = merged
+            work.append((n, dict(merged)))
+
+    out_state = transfer(start, dict(assume))
+    for label, t in cfg.succ[start]:
+        if label not in lx:
+            push(t, out_state)
+    while work:
+        n, state = work.pop()
+        state = dict(states[n])
+        taken: set[str] | None = None
+        if n.kind == "test" and hasattr(n.ast, "test"):
+            v = _tv(n.ast.test, state)
+            if v is not None:
+                taken = {"T"} if v else {"F"}
+        st = transfer(n, state)
+        for label, t in cfg.succ[n]:
+            if label in lx or (taken is not None and label in ("T", "F") and label not in taken):
+                continue
+            s2 = dict(st)
+            if n.kind == "test" and hasattr(n.ast, "test") and label in ("T", "F"):
+                for atxt, pol in atoms(n.ast.test, label == "T"):
+                    if _parses(atxt):
+                        s2.setdefault(atxt, pol)
+            push(t, s2)
+    return set(states)
